@@ -606,6 +606,64 @@ def urls():
     return check
 
 
+def stdin_reader():
+    """RecordAdapter for READING standard input, however it is spelled ('-', '', None): the container is taken from the leading
+    bytes (find_adapter_for_stream on the sniffed stdin), never from the spelling; writing to the same spellings selects the stream
+    adapter on stdout."""
+    import flow.record.base as B
+
+    spellings = ["-", "", None]
+
+    def check(sp: int, avro: bool, out: bool, has_selector: bool) -> bool:
+        """
+        post: _
+        """
+        if not (0 <= sp < 3):
+            return True
+        url = "-"
+        for j in range(3):
+            if sp == j:
+                url = spellings[j]
+        calls = []
+        imported = []
+        trace = []
+
+        def mkcls(name):
+            class A:
+                def __init__(self, path, **kw):
+                    calls.append((name, path, kw))
+
+            return A
+
+        def imp(name):
+            imported.append(name)
+            short = name.rsplit(".", 1)[1]
+            return types.SimpleNamespace(**{short.title() + "Reader": mkcls("R"), short.title() + "Writer": mkcls("W")})
+
+        stdin_obj = object()
+        sniffed = object()
+        detected = object()
+        saved = (B.importlib, B.get_stdin, B.open_stream, B.find_adapter_for_stream)
+        B.importlib = types.SimpleNamespace(import_module=imp)
+        B.get_stdin = lambda binary=False: trace.append(("get_stdin", binary)) or stdin_obj
+        B.open_stream = lambda fp, mode: trace.append(("open_stream", fp is stdin_obj, mode)) or sniffed
+        B.find_adapter_for_stream = lambda fp: (trace.append(("detect", fp is sniffed)) or (detected, "avro" if avro else "stream"))
+        try:
+            B.RecordAdapter(url, out=out, selector="r.x == 1" if has_selector else None)
+        finally:
+            B.importlib, B.get_stdin, B.open_stream, B.find_adapter_for_stream = saved
+        if len(calls) != 1:
+            return False
+        kind, arg, kw = calls[0]
+        if out:
+            return imported == ["flow.record.adapter.stream"] and kind == "W" and arg == ("-" if url == "-" else "") and not trace
+        want_sel = {"selector": "r.x == 1"} if has_selector else {}
+        return (imported == ["flow.record.adapter." + ("avro" if avro else "stream")] and kind == "R" and arg is detected and kw == want_sel
+                and trace == [("get_stdin", True), ("open_stream", True, "rb"), ("detect", True)])
+
+    return check
+
+
 EXTS = ["", ".gz", ".bz2", ".lz4", ".zst", ".zstd"]
 
 
@@ -760,6 +818,7 @@ def obligations(tier, seed):
         ob("O3-open-path", "xh", "path_open", {}, timeout=to * 2, bounds="10 suffixes x 5 modes x clobber x exists x 4 stdio spellings"),
         *[ob(f"O5-interleaved-writers/{EXTS[i] or 'raw'}", "xh", "interleaved", {"ea": i, "k": 4 if tier == "quick" else 6}, timeout=to * 2, group="O5-interleaved", bounds=f"second writer's codec x every schedule of {4 if tier == 'quick' else 6} interleaved writes, real codecs and files") for i in range(len(EXTS))],
         *[ob(f"O5-interleaved-readers/{EXTS[i] or 'raw'}", "xh", "interleaved_read", {"ea": i}, timeout=to * 2, group="O5-interleaved", bounds="second source's codec x 3 ways of naming x every schedule of 3 alternating reads, real codecs and files") for i in range(len(EXTS))],
+        ob("O4-stdin-reader", "xh", "stdin_reader", {}, timeout=to, bounds="3 spellings of standard input x detected container x reader/writer x selector"),
         ob("O4-urls", "xh", "urls", {}, timeout=to * 2, bounds=f"{len(URLS)} URL spellings x reader/writer x clobber"),
     ]
 
